@@ -733,6 +733,7 @@ func (p *planReader) Read(b []byte) (int, error) {
 // capacities and recycling; the race detector judges the memory, the history oracles judge the result.
 func RunStreamRace(r *Run) {
 	c := r.C
+	setKernel(c.Intn("avx512", 2) == 1)
 	kernelSwitching = false
 	defer func() { kernelSwitching = true }()
 	stream, want, desc := genStream(r)
